@@ -2,6 +2,7 @@
 coq/Gen/GenC17.v (which variant of each machine the code is).  Pattern based; an unrecognised shape is a problem
 (never guessed)."""
 import os, re, sys
+SERVES = ("C17",)   # properties whose check reports this translator's problems (lib/gencoq.py, core.Check.proofs)
 sys.path.insert(0, os.path.join(os.path.dirname(os.path.dirname(os.path.abspath(__file__))), "lib"))
 import gencoq
 
